@@ -102,6 +102,7 @@ pub fn subject_main(job_path: &str) -> i32 {
             let pre = live_dump(&d);
             let model_before = d.model.clone();
             let snaps_before = d.snaps.clone();
+            let opidx_before = d.opidx;
             mark(&marks, &format!("B{i}"));
             let info = d.apply(op);
             mark(&marks, &format!("E{i}"));
@@ -116,6 +117,8 @@ pub fn subject_main(job_path: &str) -> i32 {
                 // the model must forget what the failed op did to it
                 d.model = model_before;
                 d.snaps = snaps_before;
+                // the retry must write the same values as the clean run
+                d.opidx = opidx_before;
                 // (1) every read keeps returning what it returned before the call
                 let post = live_dump(&d);
                 rep.checks.push(Check {
